@@ -408,7 +408,8 @@ def run_manager(case, tmpdir):
     content = read_dest(case, dst)
     out = outcome_of(err)
     line = fmt_result(out, content, writes, fmt_parts(case, client.log))
-    return line, sched, {'outcome': out, 'content': content, 'offsets': offprob, 'err': repr(err) if err else None,
+    return line, sched, {'outcome': out, 'content': content, 'offsets': offprob, 'err': type(err).__name__ if err else None,
+                         'order_used': order_used,
                          'max_calls': max([0] + [int(x.split('=')[1]) for x in fmt_parts(case, client.log).split(';') if x])}
 
 
@@ -448,7 +449,8 @@ def run_sched(case):
     else:
         out = 'nofile' if res[1] == 'FileNotFoundError' else 'failed:' + res[1]
     line = fmt_result(out, r.content, writes, fmt_parts(case, r.client.log))
-    return line, sched, {'outcome': out, 'content': r.content, 'offsets': offprob, 'err': None if out == 'ok' else str(res),
+    return line, sched, {'outcome': out, 'content': r.content, 'offsets': offprob,
+                         'err': None if out == 'ok' else (res[1] if res else 'no result'),
                          'max_calls': max([0] + [int(x.split('=')[1]) for x in fmt_parts(case, r.client.log).split(';') if x])}
 
 
@@ -524,6 +526,7 @@ def run_pool(case, tmpdir):
     req = processpool.DownloadFileRequest(transfer_id=1, bucket='b', key='k', filename=final, extra_args={},
                                           expected_size=len(obj))
     errs = []
+    picks_used = []
     temp = None
     had_open = hasattr(processpool, 'open')
     processpool.open = lambda fn, mode='r', *a, **k: RecFile(open(fn, mode, *a, **k), wlog) if '+' in mode else open(fn, mode, *a, **k)
@@ -568,6 +571,7 @@ def run_pool(case, tmpdir):
                 p = picks.pop(0) if picks else live[0]
                 if p not in live:
                     continue
+                picks_used.append(p)
                 turn[p].release()
                 if not back.acquire(timeout=20):
                     errs.append(RuntimeError('baton timeout'))
@@ -584,7 +588,8 @@ def run_pool(case, tmpdir):
     out = 'ok' if not errs else 'failed:' + type(errs[0]).__name__
     sched = [part_of_offset(case, o) for o, _ in wlog]
     line = fmt_result(out, content, wlog, fmt_parts(case, client.log))
-    return line, sched, {'outcome': out, 'content': content, 'offsets': None, 'err': repr(errs[0]) if errs else None,
+    return line, sched, {'outcome': out, 'content': content, 'offsets': None,
+                         'err': type(errs[0]).__name__ if errs else None, 'order_used': picks_used if baton else None,
                          'max_calls': max([0] + [int(x.split('=')[1]) for x in fmt_parts(case, client.log).split(';') if x])}
 
 
@@ -674,6 +679,12 @@ def report_failure(ctx, case, why, tmpdir):
     if n >= 4:
         return
     ctx.c02_reported = n + 1
+    if case['mode'] in ('perm', 'baton'):
+        # the order actually used (the generated one is longer than needed)
+        _, _, info = run_impl(case, tmpdir)
+        c2 = dict(case, order=info.get('order_used') or case.get('order'))
+        if oracle(c2, tmpdir):
+            case = c2
     small = shrink(case, tmpdir) if case['mode'] != 'sched' else case
     why2 = oracle(small, tmpdir) or why
     ctx.report(sig(small), f'download ({short(small)}): {why2}',
@@ -923,7 +934,7 @@ def library_runs(ctx, fails, tmpdir):
         out = 'ok' if res and res[0] == 'ok' else 'failed:' + str(res[1] if res else ('deadlock' if r.deadlock else 'none'))
         content = r.dest_bytes.get('t0')
         parts = fmt_parts(case, r.client.log)
-        info = {'outcome': out, 'content': content, 'offsets': offprob, 'err': str(res),
+        info = {'outcome': out, 'content': content, 'offsets': offprob, 'err': res[1] if res and res[0] != 'ok' else None,
                 'max_calls': max([0] + [int(x.split('=')[1]) for x in parts.split(';') if x])}
         line = fmt_result(out, content, writes, parts)
         ctx.count('download-library-run', 1, nontrivial_key=(model_line(case, sched)) if nontrivial(case, line) else None,
@@ -983,7 +994,7 @@ def pool_empty_object_note(ctx, tmpdir):
     c = {'front': 'pool', 'kind': 'path', 'init': '', 'obj': '', 'thr': 4, 'chunk': 3, 'io': 2, 'att': None,
          'faults': [], 'reads': [], 'mode': 'order', 'order': []}
     line, _, info = run_pool(c, tmpdir)
-    ctx.notes.append(f'process pool, empty object: {info["outcome"]} ({info["err"]}) -- not a success, hence outside C02; '
+    ctx.notes.append(f'process pool, empty object: {info["outcome"]} -- not a success, hence outside C02; '
                      f'model: pool_allocate 0 = None')
 
 
